@@ -14,6 +14,7 @@
 #include <kernel/util/property_map.hpp>
 
 #include <algorithm>
+#include <cmath>
 #include <cstdio>
 #include <fstream>
 #include <sstream>
@@ -320,7 +321,8 @@ namespace c11
 
 
   // ---------------------------------------------------------------------------------------------- adaption by the charts
-  struct AdaptResult { Kind kind = K_UNKNOWN; std::string what, canon_before, canon_after, written_after; int mesh_type = -1, shape_type = -1, shape_dim = -1, world_dim = -1; };
+  struct AdaptResult { Kind kind = K_UNKNOWN; std::string what, canon_before, canon_after, written_after; int mesh_type = -1, shape_type = -1, shape_dim = -1, world_dim = -1;
+    double max_dist_on_chart = 0.0; long linked_vertices = 0, bystanders_moved = 0; };
 
   /// parse, then RootMeshNode::adapt() (every mesh part that is linked to a chart is projected onto it), dump before / after
   template<typename Mesh_>
@@ -336,8 +338,29 @@ namespace c11
     PartitionSet ps;
     reader.parse(node, atlas, &ps);
     out.canon_before = canon(node, atlas, ps);
+    std::vector<typename Mesh_::VertexSetType::VertexType> before;
+    if(node.get_mesh()) for(Index i = 0; i < node.get_mesh()->get_num_entities(0); ++i) before.push_back(node.get_mesh()->get_vertex_set()[i]);
     node.adapt();
     out.canon_after = canon(node, atlas, ps);
+    // independent oracle of the adaption: afterwards the vertices of every chart-linked mesh part lie on their chart and no other vertex moved
+    if(node.get_mesh())
+    {
+      std::vector<char> linked(before.size(), 0);
+      for(auto& n : node.get_mesh_part_names())
+      {
+        const auto* ch = node.find_mesh_part_chart(n); const auto* mp = node.find_mesh_part(n);
+        if(ch == nullptr || mp == nullptr || dynamic_cast<const Atlas::SurfaceMesh<Mesh_>*>(ch) != nullptr) continue;
+        const auto& ts = mp->template get_target_set<0>();
+        for(Index i = 0; i < ts.get_num_entities(); ++i)
+        {
+          linked[ts[i]] = 1; ++out.linked_vertices;
+          double d = std::fabs(double(ch->dist(node.get_mesh()->get_vertex_set()[ts[i]])));
+          if(d > out.max_dist_on_chart) out.max_dist_on_chart = d;
+        }
+      }
+      for(size_t i = 0; i < before.size(); ++i)
+        if(!linked[i]) for(int j = 0; j < Mesh_::world_dim; ++j) if(!(before[i][j] == node.get_mesh()->get_vertex_set()[Index(i)][j])) { ++out.bystanders_moved; break; }
+    }
     std::ostringstream os; { MeshFileWriter w(os); w.write(&node, &atlas, &ps); }
     out.written_after = os.str();
   }
